@@ -86,6 +86,13 @@ def offsets(sizes):
     return [0] + list(np.cumsum(sizes))
 
 
+def positions(cfg):
+    """State indices (ascending) of every block; contiguous unless cfg['indices'] is given."""
+    idx = cfg.get("indices") or block_of(cfg["sizes"])
+    nb = max(idx) + 1
+    return [[a for a, b in enumerate(idx) if b == blk] for blk in range(nb)]
+
+
 def sym_masks(size, E_block, hermitian=True):
     """All admissible masks of one block: never select a degenerate pair or the diagonal;
     symmetric in Hermitian mode.  Yields 0/1 nested lists."""
@@ -106,18 +113,16 @@ def sym_masks(size, E_block, hermitian=True):
 
 def eliminate_mask(cfg):
     """R[i][j] = True when element (i, j) must be eliminated; derived from the cfg only."""
-    sizes = cfg["sizes"]
-    N = sum(sizes)
-    off = offsets(sizes)
+    pos = positions(cfg)
+    N = sum(len(p) for p in pos)
     E = [tuple(e) for e in cfg["E"]]
     R = [[True] * N for _ in range(N)]
     fd = cfg.get("fd")
     mask = cfg.get("mask")
-    single_default = len(sizes) == 1 and not fd and not mask
-    for b, s in enumerate(sizes):
-        for i in range(s):
-            for j in range(s):
-                gi, gj = off[b] + i, off[b] + j
+    single_default = len(pos) == 1 and not fd and not mask
+    for b, states in enumerate(pos):
+        for i, gi in enumerate(states):
+            for j, gj in enumerate(states):
                 if mask is not None and str(b) in mask:
                     R[gi][gj] = bool(mask[str(b)][i][j])
                 elif (fd and b in fd) or single_default:
@@ -205,7 +210,7 @@ def library_input(cfg, values):
     else:
         raise ValueError(rep)
     Hd = {z: h0, **{tuple(o): conv(m) for o, m in values.items()}}
-    kwargs = dict(subspace_indices=block_of(cfg["sizes"]), hermitian=cfg["hermitian"])
+    kwargs = dict(subspace_indices=list(cfg.get("indices") or block_of(cfg["sizes"])), hermitian=cfg["hermitian"])
     if cfg.get("basis") == "RL":
         # the same problem written in a non-orthogonal basis: H -> T H T^-1 with a unimodular
         # integer T, handed over with explicit biorthogonal (R, L) subspace pairs
@@ -265,29 +270,27 @@ def block_to_np(v, shape):
     return v
 
 
-def assemble(series, sizes, n, exact=True):
-    """Full N x N matrix of a block series at multi-order n (M if exact else NP)."""
-    N = sum(sizes)
-    off = offsets(sizes)
-    nb = len(sizes)
-    if not exact:
-        arr = np.zeros((N, N), dtype=complex)
-        for i in range(nb):
-            for j in range(nb):
-                v = block_to_np(series[(i, j) + tuple(n)], (sizes[i], sizes[j]))
-                if v is not None:
-                    arr[off[i] : off[i + 1], off[j] : off[j + 1]] = v.astype(complex)
-        return NP(arr)
-    out = M.zeros(N)
+def assemble(series, sizes, n, exact=True, pos=None):
+    """Full N x N matrix (state order) of a block series at multi-order n (M if exact else NP)."""
+    if pos is None:
+        off = offsets(sizes)
+        pos = [list(range(off[b], off[b + 1])) for b in range(len(sizes))]
+    N = sum(len(p) for p in pos)
+    nb = len(pos)
+    arr = np.zeros((N, N), dtype=complex) if not exact else None
+    out = M.zeros(N) if exact else None
     for i in range(nb):
         for j in range(nb):
-            v = block_to_np(series[(i, j) + tuple(n)], (sizes[i], sizes[j]))
+            v = block_to_np(series[(i, j) + tuple(n)], (len(pos[i]), len(pos[j])))
             if v is None:
                 continue
-            for a in range(sizes[i]):
-                for b in range(sizes[j]):
-                    out.a[off[i] + a][off[j] + b] = q(v[a, b])
-    return out
+            if not exact:
+                arr[np.ix_(pos[i], pos[j])] = v.astype(complex)
+            else:
+                for a, ga in enumerate(pos[i]):
+                    for b, gb in enumerate(pos[j]):
+                        out.a[ga][gb] = q(v[a, b])
+    return NP(arr) if not exact else out
 
 
 class LibraryRejected(Exception):
@@ -321,7 +324,7 @@ def run_library_values(cfg, values, request_order="asc"):
     exact = cfg["repr"] == "sympy"
     for n in seq:
         for name, s in (("Ht", Ht), ("U", U), ("Uinv", Ui)):
-            out[name][n] = assemble(s, cfg["sizes"], n, exact)
+            out[name][n] = assemble(s, cfg["sizes"], n, exact, positions(cfg))
     return values, out, (Ht, U, Ui)
 
 
